@@ -19,7 +19,7 @@ OBLIGATIONS = ['PGA.C08.' + t for t in [
     'C08_tab_ops', 'C08_tab_bondwords', 'C08_tab_cn', 'C08_words_as_reference',
     'C08_matches_iff_partial', 'C08_fragment_matches_iff_partial', 'C08_matches_nodup', 'C08_matches_iff_full_fails',
     'C08_cap_inactive', 'C08_capped_iff_partial', 'C08_truncated_sound', 'C08_capped_iff_full_fails',
-    'C08_read_wf', 'C08_alpha_read_partial', 'C08_alpha_matches_partial', 'C08_labels_irrelevant']]
+    'C08_read_wf', 'C08_read_only_ring_errors', 'C08_alpha_read', 'C08_alpha_read_full_holds', 'C08_alpha_matches', 'C08_labels_irrelevant']]
 RULE = ('cases = (fragment, molecule) pairs. Fragments: bounded-exhaustive one- and two-atom fragments (every symbol '
         'class x suffix, x prefix, every legal molecule-prefix combination, every constraint form x negation x operator '
         'x number, every bond word) plus random grammar-directed fragments of 1..8 atoms with random layout and label '
@@ -260,6 +260,12 @@ def count_constructs(ctx, frag, tag):
             a = it[1]
             ctx.count('%s_sym_%s' % (tag, a['sym'] if a['sym'] in RG.CLASS_SYMS else ('lower' if a['sym'][0].islower() else 'element')))
             ctx.count('%s_suffix_%s' % (tag, a.get('suffix') or 'none'))
+            if a['label'] == 'AtomLabel':
+                ctx.count('%s_label_AtomLabel' % tag)
+                if a['bond'] and a['bond'][1] == 'AtomLabel':
+                    ctx.count('%s_bond_to_AtomLabel' % tag)
+            elif a['bond'] and a['bond'][1] == 'AtomLabel':
+                ctx.count('%s_bond_to_AtomLabel' % tag)
             if a.get('prefix'):
                 ctx.count('%s_prefix_%s' % (tag, a['prefix']))
             if a['bond']:
@@ -474,6 +480,7 @@ def check_read(ctx, fc):
     """the fragment-level clause: a fragment the grammar and the property give a meaning to must be read"""
     if fc.read != fc.expected_read:
         if fc.expected_read == 'ok' and fc.read == 'internal:TypeError' and atomlabel_class(fc.frag):
+            # FM2 is `fixed` (repository commit e97afc2): the id is attached for the report only, a fixed entry excuses nothing
             ctx.violation('a well-formed fragment is not read (TypeError)', {'text': fc.text, 'fragment': fc.frag},
                           expected='ok', observed=fc.read, finding='FM2')
             return False
@@ -541,12 +548,7 @@ def merge_findings(ctx):
     p = os.path.join(common.VERIF, 'findings', 'C08.json')
     if os.path.exists(p):
         for e in json.load(open(p)):
-            ctx.known.setdefault(e['id'], e)
-
-
-def lowercase_supported():
-    q, cls = impl_read('fragment a{c labeled c1}')
-    return cls == 'ok'
+            ctx.known[e['id']] = e          # this property's own file wins over a stale entry of the shared list
 
 
 def run(ctx):
@@ -561,10 +563,8 @@ def run(ctx):
                                         % (len(pool.entries), ('; FAILED: %r' % pool.bad_graph[:3]) if pool.bad_graph else '')}
     if pool.bad_graph:
         raise common.MachineryError('assumption A-graph failed: %r' % (pool.bad_graph[:3],))
-    lower_ok = lowercase_supported()
-    fm2_present = impl_read('fragment a{C labeled AtomLabel C labeled x single bond to AtomLabel}')[1] == 'internal:TypeError'
-    ctx.count('label_AtomLabel_' + ('generated_FM2_present' if fm2_present else 'not_generated_guard_removed'))
-    ctx.count('lowercase_symbols_' + ('generated' if lower_ok else 'excluded_F22_pending'))
+    # F22 (lower-case symbols) and FM2 (label `AtomLabel`) are repaired on the repository: both classes are generated
+    # unconditionally and a recurrence is a violation
     fcs, requests = [], []
     # 1. bounded-exhaustive small fragments x sampled molecules
     small = RG.small_fragments(ctx.thorough())
@@ -588,17 +588,17 @@ def run(ctx):
             frag = RG.stereo_fragment(rng)
         elif i % 40 == 7:
             frag = RG.dup_label_fragment(rng)
-        elif i % 200 == 9 and fm2_present:
+        elif i % 50 == 9:
             frag = RG.atomlabel_fragment(rng)
         else:
-            frag = RG.rand_fragment(rng, lower_ok=lower_ok)
+            frag = RG.rand_fragment(rng)
         fc = make_case(ctx, frag, 'random')
         fcs.append(fc)
         if not check_read(ctx, fc) or fc.read != 'ok':
             continue
         ents, res = run_fragment(ctx, pool, fc, per_rand, requests, extra_tries=6)
         # 3. layout / label independence on the implementation itself (relational clause of the property)
-        if i % 4 == 0 and 'AtomLabel' not in RG.labels_of(frag):
+        if i % 4 == 0:
             g2 = RG.relabel(frag, rng)
             t2 = RG.render(g2, rng)
             q2, r2 = impl_read(t2)
@@ -671,7 +671,7 @@ REACH = (['hit_suffix_' + s for s in ['none', '+', '-', '.', ':', '+.', '-.', '?
          ['hit_prefix_' + p for p in RG.ATOM_PREFIX] +
          ['hit_bond_' + b for b in RG.BONDS] +
          ['hit_molprefix_' + p for p in RG.CHARGE_PREFIX + RG.KIND_PREFIX + RG.RING_PREFIX] +
-         ['hit_sym_' + s for s in RG.CLASS_SYMS + ['element']] +
+         ['hit_sym_' + s for s in RG.CLASS_SYMS + ['element', 'lower']] + ['hit_label_AtomLabel', 'hit_bond_to_AtomLabel'] +
          ['hit_cons_%s%s_%s' % (n, f, o) for n in ('', '!') for f in ('conn', 'ringsize', 'radical', 'nring') for o in ('>', '<', '>=', '<=', '=', 'noop')] +
          ['hit_cons_conn_default', 'hit_cons_!conn_default'] +
          ['hit_connbond_' + b for b in RG.BONDS + ['default']])
